@@ -5,7 +5,8 @@
  * contract shows it to the function in views of ANY length 1..rest at every
  * call (down to one byte at a time), may fail at any call, and every
  * allocation may fail. The oracle is spec/getline_spec.h, which sees the
- * whole text at once. All loops unwound (bound LEN+3, unwinding assertions).
+ * whole text at once. One run per (LEN, flags value); all loops unwound
+ * (bound LEN+2, unwinding assertions).
  *
  *  C12.get_line.status     no failure: ret == spec (0 line / 1 end of input)
  *  C12.get_line.text       the returned string equals the spec's line
@@ -187,7 +188,11 @@ void harness(void)
 
 	s_ret = spec_get_line(g_text, LEN, flags, &s_start, &s_len, &s_cons,
 			      &s_skip);
+#if defined(FLAGS) && (FLAGS & 4) && LEN >= 2
 	VERIF_COVER(s_ret == 0 && s_skip > 0);
+#else
+	VERIF_COVER(s_ret == 0);
+#endif
 
 	ret = istream_get_line(&g_in_obj, &out, &line_num, flags);
 
@@ -218,11 +223,15 @@ void harness(void)
 	VERIF_ASSERT(!g_pool_live, "C12.get_line.no_leak");
 
 	VERIF_COVER(ret == 0 && g_gets >= 2 && s_len >= 1);
+#if defined(FLAGS) && (FLAGS & 4)
 	VERIF_COVER(ret == 1);
+#endif
 	VERIF_COVER(ret == SQFS_ERROR_ALLOC);
 	VERIF_COVER(ret < 0 && g_err);
-#if LEN >= 3
+#if defined(FLAGS) && (FLAGS & 4) && LEN >= 2
 	VERIF_COVER(ret == 0 && s_skip > 0);
+#endif
+#if LEN >= 3
 	VERIF_COVER(ret == 0 && g_gets >= 3 && s_len + 1 < g_cons);
 #endif
 }
